@@ -29,15 +29,15 @@ func init() {
 }
 
 type cliCase struct {
-	Kind   string   `json:"kind"`
-	Sub    string   `json:"sub"`
-	Args   []string `json:"args"`
-	Doc    string   `json:"doc_hex"`
-	Text   string   `json:"doc_text,omitempty"`
-	ViaFile bool    `json:"via_file"`
-	Stdout string   `json:"stdout"` // pipe | closed | full
-	Pre    []FSEntry `json:"pre,omitempty"`
-	Expect string   `json:"expect_stage,omitempty"` // usage | opts | open ; empty: decided by the library
+	Kind    string    `json:"kind"`
+	Sub     string    `json:"sub"`
+	Args    []string  `json:"args"`
+	Doc     string    `json:"doc_hex"`
+	Text    string    `json:"doc_text,omitempty"`
+	ViaFile bool      `json:"via_file"`
+	Stdout  string    `json:"stdout"` // pipe | closed | full
+	Pre     []FSEntry `json:"pre,omitempty"`
+	Expect  string    `json:"expect_stage,omitempty"` // usage | opts | open ; empty: decided by the library
 }
 
 var cliBin string
